@@ -103,6 +103,25 @@ void h_convert_timespec(void) {
     CANARY("convertTimespec returns");
 }
 
+/* the conversion used by the fallback clock sources (gettimeofday / getrusage: builds with WASI_FALLBACK_TIMERS_ENABLED or without POSIX timers) */
+void h_convert_timeval(void) {
+    struct timeval t; ND(long, s); ND(long, us); I64 r;
+    ASSUME(us >= 0 && us < 1000000L && s >= 0 && s <= 9223372035L);
+    t.tv_sec = s; t.tv_usec = us;
+    r = convertTimeval(t);
+    OBL(r == (I64)s * 1000000000LL + (I64)us * 1000LL, "convertTimeval: seconds * 10^9 + microseconds * 10^3 (nanoseconds)");
+    CANARY("convertTimeval returns");
+}
+void h_add_timevals(void) {
+    struct timeval a, b, c; ND(long, s1); ND(long, u1); ND(long, s2); ND(long, u2);
+    ASSUME(u1 >= 0 && u1 < 1000000L && u2 >= 0 && u2 < 1000000L && s1 >= 0 && s2 >= 0 && s1 <= 4000000000L && s2 <= 4000000000L);
+    a.tv_sec = s1; a.tv_usec = u1; b.tv_sec = s2; b.tv_usec = u2;
+    addTimevals(&a, &b, &c);
+    { long carry = (u1 + u2 >= 1000000L) ? 1 : 0;     /* stated without multiplication: carry form */
+      OBL(c.tv_usec >= 0 && c.tv_usec < 1000000L && c.tv_sec == s1 + s2 + carry && c.tv_usec == u1 + u2 - (carry ? 1000000L : 0), "addTimevals: user + system time, normalised (process CPU time of the fallback clock source)"); }
+    CANARY("addTimevals returns");
+}
+
 /* ---------- random_get ---------- */
 #ifndef RANDOM_MAX
 #define RANDOM_MAX 300u
